@@ -237,7 +237,7 @@ class Gen:
             tns = self._forced[0] if self._forced else self.pick_ns(ns)
             full = self.full(tns, self.fresh_named("R", tns))
             d = {"k": "record", "full": full, "ns": tns, "fields": [], "aliases": self.mk_aliases()}
-            if self.error_records and not self.json_safe and r.random() < 0.06:
+            if self.error_records and not self.json_safe and r.random() < 0.12:
                 d["error"] = True
             self.defs[full] = d
             self.open.append(full)
